@@ -22,7 +22,8 @@ package scen
 // scenarios (c04World.check / the public-key rule of c04_pk.go), each of which
 // is a clause of the property read for "the requested key" of THAT search:
 //
-//	yield-invalid / yield-miskeyed / yield-unsupplied / yield-expired-local
+//	yield-invalid / yield-miskeyed / yield-unsupplied / yield-expired-local /
+//	yield-invalid-local
 //	    "only yield values that the configured validator accepts for the
 //	    requested key ... never an invalid or mis-keyed record": a yielded
 //	    value was supplied to this search by a correctly keyed record that the
@@ -67,8 +68,8 @@ import (
 	"strings"
 	"time"
 
-	dht "github.com/libp2p/go-libp2p-kad-dht"
 	record "github.com/libp2p/go-libp2p-record"
+	recpb "github.com/libp2p/go-libp2p-record/pb"
 	ci "github.com/libp2p/go-libp2p/core/crypto"
 	"github.com/libp2p/go-libp2p/core/peer"
 	"github.com/libp2p/go-libp2p/core/routing"
@@ -91,7 +92,8 @@ func init() {
 				"probe_history_searches", "probe_history_other_key_than_before", "probe_history_same_key_again", "probe_history_found_after_other_key_found",
 				"probe_history_replay_valid_for_other_key", "probe_history_replay_rejected_elsewhere_valid_here", "probe_history_replay_same_key_still_valid",
 				"probe_history_replay_same_key_expired_since", "probe_history_replay_verbatim_record", "probe_history_pk_other_identity_key_after_its_search",
-				"probe_history_answered_after_search_end", "probe_history_getpublickey"},
+				"probe_history_answered_after_search_end", "probe_history_getpublickey",
+				"probe_opt_offline", "probe_opt_expired", "probe_opt_offline_local_not_valid", "probe_local_never_valid", "probe_local_outlived_max_age", "probe_stamp_valid_value_held_past_requesters_max_age", "probe_stamp_valid_value_from_the_future", "probe_stamp_valid_value_unparsable"},
 		})
 	}
 }
@@ -102,6 +104,11 @@ type c04HKey struct {
 	PK    *c04PK       // "/pk/<id>" of this identity (nil: a rank-validator key)
 	Peer  *simnet.Peer // the identity's own node
 	Local []byte       // the record the client stores under this key (nil: none)
+	// Planted: the stored record was rewritten straight in the datastore into
+	// one that never was valid for this key (PlantKind: c04Plant*)
+	Planted   bool
+	PlantKind int
+	StoredAt  time.Duration
 }
 
 // c04Seen is one byte string an earlier search of the history came across.
@@ -217,24 +224,34 @@ func c04NSSelect(rv rankValidator) func(string, [][]byte) (int, error) {
 func (w *c04World) histPutLocal(hk *c04HKey, i int) {
 	s := w.s
 	var val []byte
+	var exp time.Time
+	rank, plant := 0, -1
 	switch {
 	case hk.PK != nil:
-		if !s.Chance(fmt.Sprintf("local-pk-%d", i), 1, 5) {
+		switch s.Draw(fmt.Sprintf("local-pk-%d", i), 6) {
+		case 1:
+		case 2: // later rewritten into another identity's (perfectly valid) key
+			plant = c04PlantOtherKey
+		default:
 			return
 		}
 		val = hk.PK.Raw
 	default:
-		rank := s.Draw(fmt.Sprintf("local-rank-%d", i), 2*w.cfg.Ranks)
-		switch s.Draw(fmt.Sprintf("local-%d", i), 4) {
+		rank = s.Draw(fmt.Sprintf("local-rank-%d", i), 2*w.cfg.Ranks)
+		switch s.Draw(fmt.Sprintf("local-%d", i), 5) {
 		case 0:
 			return
 		case 1:
-			val = rankValue(rank, time.Now().Add(2000*time.Hour), hk.Key)
+			exp = time.Now().Add(2000 * time.Hour)
 		case 2:
-			val = rankValue(rank, time.Now().Add(time.Duration(1+s.Draw("local-ttl-ms", 20000))*time.Millisecond), hk.Key)
-		default:
-			val = rankValue(rank, time.Now().Add(time.Duration(1+s.Draw("local-ttl-s", 7200))*time.Second), hk.Key)
+			exp = time.Now().Add(time.Duration(1+s.Draw("local-ttl-ms", 20000)) * time.Millisecond)
+		case 3:
+			exp = time.Now().Add(time.Duration(1+s.Draw("local-ttl-s", 7200)) * time.Second)
+		default: // later rewritten into a record that never was valid for this key
+			exp = time.Now().Add(2000 * time.Hour)
+			plant = s.Draw("local-plant", c04PlantKinds)
 		}
+		val = rankValue(rank, exp, hk.Key)
 	}
 	op := w.ops.Go(s, "PutValue", func() (any, error) {
 		return nil, w.sut.client.PutValue(context.Background(), hk.Key, val)
@@ -249,10 +266,46 @@ func (w *c04World) histPutLocal(hk *c04HKey, i int) {
 		releaseBenign(s, ps[0])
 		s.Quiesce()
 	}
-	if op.Done && w.sut.stored(val) {
+	if !op.Done || !w.sut.stored(val) {
+		return
+	}
+	hk.StoredAt = s.Now()
+	if plant < 0 {
 		hk.Local = val
 		w.hist.note(c04Seen{ReqKey: hk.Key, RecKey: hk.Key, Val: val, Valid: true})
+		return
 	}
+	// another key of the pool (or, for a lone key, a made-up one) is what the
+	// "belongs to another key" records are made of
+	otherKey, planted := hk.Key+"-other", []byte(nil)
+	for _, o := range w.hist.keys {
+		if o != hk && (o.PK != nil) == (hk.PK != nil) {
+			otherKey = o.Key
+		}
+	}
+	if hk.PK != nil {
+		for j, k := range c04Keys() {
+			if k.ID != hk.PK.ID {
+				planted, otherKey = c04Keys()[j].Raw, routing.KeyForPublicKey(k.ID)
+				break
+			}
+		}
+	} else {
+		planted = c04PlantValue(plant, val, rank, exp, hk.Key, otherKey)
+	}
+	if !w.sut.plant(hk.Key, val, func(rec *recpb.Record) {
+		if plant == c04PlantMisKeyed {
+			rec.Key = []byte(otherKey)
+		}
+		rec.Value = planted
+	}) {
+		return
+	}
+	if planted == nil {
+		planted = []byte{}
+	}
+	hk.Local, hk.Planted, hk.PlantKind = planted, true, plant
+	w.hist.note(c04Seen{ReqKey: hk.Key, RecKey: hk.Key, Val: planted, Valid: false})
 }
 
 // histFlush lets everything that is parked go, first parked call first, without
@@ -362,6 +415,10 @@ func c04RunHistory(s *sim.Sim, variant string) {
 	c.Alpha = s.Range("alpha", 1, 5)
 	c.Beta = s.Range("beta", 1, c.K+1)
 	c.Ranks = s.Range("ranks", 1, 8)
+	c.MaxAge = s.Draw("max-record-age", len(c04MaxAges))
+	if c.Stamps = s.Draw("stamps", 3); c.Stamps != 0 {
+		c.StampSeed = s.Draw("stamp-seed", 1<<16)
+	}
 	rounds := s.Range("searches", 2, 5)
 	h := &c04Hist{seenIdx: map[string]bool{}, contacted: map[peer.ID]bool{}, found: map[string]bool{}}
 	w := &c04World{s: s, cfg: c, val: rankValidator{TimeAware: true}, resp: map[peer.ID]*c04Resp{}, side: map[peer.ID]string{}, hist: h}
@@ -533,28 +590,35 @@ func c04RunHistory(s *sim.Sim, variant string) {
 		}
 		w.cfg.Profile = []int{2, 1, 0, 2}[s.Draw("profile", 4)]
 		w.cfg.LocalCopies = 0
-		w.localVal, w.localStored, w.localValidAtStart = nil, false, false
+		w.cfg.Offline, w.cfg.Expired = s.Chance("opt-offline", 1, 4), s.Chance("opt-expired", 1, 6)
+		w.localVal, w.localStored, w.localValidAtStart, w.localPlanted = nil, false, false, false
 		if hk.Local != nil {
 			w.localVal = hk.Local
 			w.localStored = w.sut.stored(hk.Local)
+			w.localPlanted, w.localStoredAt, w.cfg.LocalPlant = hk.Planted, hk.StoredAt, hk.PlantKind
 			w.cfg.LocalCopies = s.Draw("local-copies", 4)
 		}
 		w.histScript(hk, other, replay)
 		name := []string{"GetValue", "SearchValue", "GetPublicKey"}[opk]
-		s.Tracef("search %d: %s key#%d quorum=%d", i, name, idx, quorum)
+		s.Tracef("search %d: %s key#%d quorum=%d offline=%v expired=%v", i, name, idx, quorum, w.cfg.Offline, w.cfg.Expired)
 		s.Count("probe_history_searches")
 
 		// the call
 		w.op, w.emits, w.traced, w.supplies, w.cancelStep, w.endedEarly = nil, nil, 0, nil, 0, false
 		ctx, cancel := context.WithCancel(sim.WithTag(context.Background(), fmt.Sprintf("s%d", i)))
-		var opts []routing.Option
-		if quorum >= 0 {
-			opts = append(opts, dht.Quorum(quorum))
+		opts := w.cfg.routingOpts()
+		if opk != opPK {
+			if w.cfg.Offline {
+				s.Count("probe_opt_offline")
+			}
+			if w.cfg.Expired {
+				s.Count("probe_opt_expired")
+			}
 		}
 		key, target := hk.Key, hk.PK
 		w.op = w.ops.Go(s, name, func() (any, error) {
 			w.startAt = s.Now()
-			w.localValidAtStart = w.localStored && w.validate(key, w.localVal) == nil
+			w.localValidAtStart = w.localStored && !w.localPlanted && w.validate(key, w.localVal) == nil
 			switch opk {
 			case opPK:
 				k, err := routing.GetPublicKey(w.sut.client, ctx, target.ID)
@@ -570,9 +634,7 @@ func c04RunHistory(s *sim.Sim, variant string) {
 			if err != nil {
 				return nil, err
 			}
-			for v := range ch {
-				w.emits = append(w.emits, c04Emit{Val: append([]byte(nil), v...), Step: s.Steps, At: s.Now(), VErr: w.validate(key, v)})
-			}
+			w.consume(ch, key, w.validate)
 			return nil, nil
 		})
 		s.Quiesce()
